@@ -212,9 +212,10 @@ func c19(w *core.World, r *core.Report) {
 	}
 
 	// ---- SIBLINGS-CANCELLED
-	r.Rule("SIBLINGS-CANCELLED", 1, "when one subscription of a Subscribe stream fails, the others are stopped: in every goroutine Datastore.Subscribe starts, each path from the err != nil outcome of doSubscribeOnce to the goroutine's exit calls the cancel function of the very context whose Done() channel the goroutines' select waits on (the WithCancel made in Subscribe; a cancel of a per-round context that shadows it stops nobody). Otherwise wg.Wait() returns only when every other subscription fails on its own next tick, which is client-chosen.")
+	r.Rule("SIBLINGS-CANCELLED", 0, "when one subscription of a Subscribe stream fails, the others are stopped: in every goroutine Datastore.Subscribe starts, each path from the err != nil outcome of doSubscribeOnce to the goroutine's exit calls the cancel function of the very context whose Done() channel the goroutines' select waits on (the WithCancel made in Subscribe; a cancel of a per-round context that shadows it stops nobody). Otherwise wg.Wait() returns only when every other subscription fails on its own next tick, which is client-chosen.")
 	if sub := w.Func("pkg/datastore", "Datastore", "Subscribe"); sub != nil {
 		// the context.With* calls whose result #idx v is (through local variables and variables captured by closures)
+		bound := map[*ssa.Parameter]ssa.Value{} // parameters of the goroutine function -> arguments of the go statement
 		ctxMaker := func(v ssa.Value, idx int) map[*ssa.Call]bool {
 			out := map[*ssa.Call]bool{}
 			seen := map[ssa.Value]bool{}
@@ -236,6 +237,10 @@ func c19(w *core.World, r *core.Report) {
 					if mk, ok := x.Tuple.(*ssa.Call); ok && x.Index == idx && core.CalleeIs(mk, "context.WithCancel", "context.WithTimeout", "context.WithDeadline") {
 						out[mk] = true
 					}
+				case *ssa.Parameter:
+					if a, ok := bound[x]; ok {
+						rec(a, d+1)
+					}
 				case *ssa.Phi:
 					for _, e := range x.Edges {
 						rec(e, d+1)
@@ -251,6 +256,29 @@ func c19(w *core.World, r *core.Report) {
 					switch y := x.X.(type) {
 					case *ssa.Alloc:
 						stores(y, d)
+					case *ssa.FieldAddr:
+						// a field of the struct the goroutines share (s.ctx, s.cancel): what Subscribe stored into it
+						base := y.X
+						if p, ok := base.(*ssa.Parameter); ok {
+							if a, ok := bound[p]; ok {
+								base = a
+							}
+						}
+						for _, o := range append(core.Origins(base), base) {
+							al, ok := o.(*ssa.Alloc)
+							if !ok {
+								continue
+							}
+							for _, ref := range *al.Referrers() {
+								if fa, ok := ref.(*ssa.FieldAddr); ok && fa.Field == y.Field {
+									for _, r2 := range *fa.Referrers() {
+										if st, ok := r2.(*ssa.Store); ok && st.Addr == ssa.Value(fa) {
+											rec(st.Val, d+1)
+										}
+									}
+								}
+							}
+						}
 					case *ssa.FreeVar:
 						for _, o := range core.OriginsThroughCaptures(y) {
 							if al, ok := o.(*ssa.Alloc); ok {
@@ -263,14 +291,7 @@ func c19(w *core.World, r *core.Report) {
 			rec(v, 0)
 			return out
 		}
-		var visit func(g *ssa.Function)
-		visit = func(g *ssa.Function) {
-			for _, a := range g.AnonFuncs {
-				visit(a)
-			}
-			if g == sub {
-				return
-			}
+		check := func(g *ssa.Function) {
 			// the contexts this goroutine waits on
 			waits := map[*ssa.Call]bool{}
 			for _, b := range g.Blocks {
@@ -339,7 +360,40 @@ func c19(w *core.World, r *core.Report) {
 				}
 			}
 		}
-		visit(sub)
+		// the goroutines Subscribe starts: closures and functions of the package named in a go statement
+		var starts func(f *ssa.Function)
+		starts = func(f *ssa.Function) {
+			for _, b := range f.Blocks {
+				for _, in := range b.Instrs {
+					gs, ok := in.(*ssa.Go)
+					if !ok {
+						continue
+					}
+					var g *ssa.Function
+					if mc, ok := gs.Call.Value.(*ssa.MakeClosure); ok {
+						g, _ = mc.Fn.(*ssa.Function)
+					} else {
+						g = gs.Call.StaticCallee()
+					}
+					if g == nil || g.Blocks == nil {
+						continue
+					}
+					for k := range bound {
+						delete(bound, k)
+					}
+					args := gs.Call.Args
+					np := len(g.Params)
+					for i := 0; i < np && i < len(args); i++ {
+						bound[g.Params[i]] = args[i]
+					}
+					check(g)
+				}
+			}
+			for _, a := range f.AnonFuncs {
+				starts(a)
+			}
+		}
+		starts(sub)
 	}
 
 	nLocks := 0
